@@ -21,5 +21,8 @@ CHECK = dict(
         dict(name="cmd", dir="internal/cmd", src="C10/cmd", runs=[
             dict(name="access-config", run="^TestVerifC10CmdAccess$", quick=3000, thorough=120000, shards_quick=2, shards_thorough=6),
         ]),
+        dict(name="geoip", dir="internal/geoip", src="C10/geoip", runs=[
+            dict(name="country-scan", run="^TestVerifC10CountryScan$", quick=1500, thorough=60000, shards_thorough=4),
+        ]),
     ],
 )
